@@ -9,7 +9,10 @@ use glam::DVec3;
 use proptest::strategy::BoxedStrategy;
 
 fn strategy(tier: Tier) -> BoxedStrategy<Case> {
-    gen::case_strategy(GenOpts { max_n: tier.pick(400, 1500), big_n_weight: 1, masks: MaskMode::Mixed, max_offset_log2: 20, ..GenOpts::default() })
+    use proptest::prelude::*;
+    let base = gen::case_strategy(GenOpts { max_n: tier.pick(400, 1500), big_n_weight: 1, masks: MaskMode::Mixed, max_offset_log2: 20, ..GenOpts::default() });
+    // 4 % shell inputs: a cell with hundreds of faces
+    prop_oneof![24 => base, 1 => gen::shell_strategy(tier.pick(400, 1500))].boxed()
 }
 
 pub fn check(c: &Case, cs: &mut CaseStats) -> Result<(), String> {
@@ -17,11 +20,22 @@ pub fn check(c: &Case, cs: &mut CaseStats) -> Result<(), String> {
     if !gen::is_valid(c) {
         return Err("INFRA: generator produced an invalid case".into());
     }
+    check_route(c, cs, false)?;
+    if c.dim == 3 {
+        // the same identities for the tessellation obtained through cells with stored faces
+        // (face fans instead of the projection based decomposition)
+        check_route(c, cs, true).map_err(|m| format!("via VoronoiIntegrator::with_faces(): {m}"))?;
+        cs.label("with-faces-route");
+    }
+    Ok(())
+}
+
+fn check_route(c: &Case, cs: &mut CaseStats, with_faces: bool) -> Result<(), String> {
     let n = c.n();
     let d = c.d();
     let active: Vec<bool> = c.mask.clone().unwrap_or(vec![true; n]);
-    let v = obs::observe(&obs::build(c));
     let vi = obs::integrator(c, c.mask.as_deref());
+    let v = if with_faces { obs::observe(&meshless_voronoi::Voronoi::from(&vi.clone().with_faces())) } else { obs::observe(&obs::build(c)) };
     let infos = cell_infos(c, &vi);
     let gens = c.eff_gens();
     let (ea, ew) = (c.eff_anchor(), c.eff_width());
@@ -180,12 +194,12 @@ pub fn check(c: &Case, cs: &mut CaseStats) -> Result<(), String> {
 pub fn def() -> PropDef {
     PropDef {
         id: "C04",
-        rule: "cases: all families x masks, dims 1-3, periodic or not, n to 400 (quick) / 1500 (thorough); oracle: per stored face |n| = 1 within 8u, zero components on unused axes, n.(g_right + shift - g_left) > 0 and n equal to that direction, wall normals exactly +-e_k pointing out of the box with the centroid on the wall, interior centroids on the bisector plane; per constructed cell (outward = n if the cell is left, -n if right): |sum A n_out| <= tol and |(1/d) sum A n_out.(c - g) - V| <= tol (divergence theorem in the active subspace). non-trivial: a closed cell with >= d+1 faces of which at least one is seen from the right; distinct by case hash.",
+        rule: "cases: 4% shell inputs (a generator surrounded by up to 400 / 1500 generators on a jittered Fibonacci sphere: a cell with hundreds of faces), otherwise all families x masks, dims 1-3, periodic or not, n to 400 (quick) / 1500 (thorough); oracle: per stored face |n| = 1 within 8u, zero components on unused axes, n.(g_right + shift - g_left) > 0 and n equal to that direction, wall normals exactly +-e_k pointing out of the box with the centroid on the wall, interior centroids on the bisector plane; per constructed cell (outward = n if the cell is left, -n if right): |sum A n_out| <= tol and |(1/d) sum A n_out.(c - g) - V| <= tol (divergence theorem in the active subspace). non-trivial: a closed cell with >= d+1 faces of which at least one is seen from the right; distinct by case hash. In 3D every identity is checked twice: on Voronoi::build(_partial) and on Voronoi::from(&integrator.with_faces()).",
         strategy,
         check,
         cases: |t| t.pick(5000, 200_000),
         profiles: &["release"],
-        required: &["periodic", "reflective", "mask:mixed", "dim1", "dim2", "dim3"],
+        required: &["periodic", "reflective", "mask:mixed", "dim1", "dim2", "dim3", "with-faces-route", "fam:H"],
         fixed: None,
         assumptions: &["valid input as in C01", "cells with an ill-conditioned vertex (or neighbour), 1D/2D cases at coordinates > 1e10 and unresolvable arrangements are exempt from the closure identities (known findings)"],
     }
